@@ -2,6 +2,7 @@ SPECIFICATION Spec
 CONSTANT MaxCall = 2
 CONSTANT MaxNest = 1
 CONSTANT Rich = FALSE
+CONSTANT FaultSel = "all"
 INVARIANT TypeOK
 INVARIANT WellFormed
 INVARIANT Emit
